@@ -85,6 +85,8 @@ def _symbolic_inputs(cfg: dict):
         s.ka = SInt('ka')
     if cfg.get('post_write') and cfg['with_z']:
         s.zpost = SFloat('zpost')
+    if cfg.get('pre_write') and N >= 1:
+        s.ypre = SFloat('ypre')
     tol = SFloat('tol') if cfg['tol'] == 'sym' else cfg['tol']
     min_iter = SInt('min_iter') if cfg['min_iter'] == 'sym' else cfg['min_iter']
     offset = SInt('offset') if cfg['offset'] == 'sym' else 0
@@ -114,6 +116,8 @@ def _assume_domain(ctx: Ctx, cfg: dict, names, cells, s: Script, tol, min_iter, 
             fin += [c.isfinite().t for c in cells[n]]
         for p in range(1, B + 1):
             fin += [v.isfinite().t for v in s.v[p]]
+        if isinstance(s.ypre, SFloat):
+            fin.append(s.ypre.isfinite().t)
         if fin:
             ctx.assume(z3.And(*fin), 'all check values (pre-existing and per pass) finite [C02 scope]')
 
@@ -137,6 +141,10 @@ _TRACED: dict = {}
 
 
 def _span(cfg: dict):
+    if cfg.get('span_kind') == 'nd':      # NumPy-array span: labels resolve through the fallback locator
+        return np.arange(2000, 2000 + cfg['L'])
+    if cfg.get('span_kind') == 'str':
+        return [f'p{j}' for j in range(cfg['L'])]
     return list(range(2000, 2000 + cfg['L']))
 
 
@@ -236,7 +244,8 @@ def _call_impl(m, cfg: dict, *, min_iter, tol, offset) -> dict:
             for _call in range(2 if cfg.get('repeat') else 1):
                 m._script_state()['log'].append(('call', None))
                 if cfg['entry'] == 'solve_period':
-                    r = m.solve_period(_span(cfg)[cfg['t']], **kw)
+                    lab = _span(cfg)[cfg['t']]
+                    r = m.solve_period(int(lab) if cfg.get('span_kind') == 'nd' else lab, **kw)
                 else:
                     r = m.solve_t(cfg['t'], **kw)
         out.update(kind='ret', ret=r, exc=None, cause=None)
@@ -470,6 +479,7 @@ def _ieee_witness(ctx: Ctx, path, cfg: dict, extra: list, soft: bool = False) ->
     inp['kb'] = model_int(m, sc.kb.t) if isinstance(sc.kb, SInt) else int(sc.kb)
     inp['ka'] = model_int(m, sc.ka.t) if isinstance(sc.ka, SInt) else int(sc.ka)
     inp['zpost'] = model_float(m, sc.zpost.t) if isinstance(sc.zpost, SFloat) else None
+    inp['ypre'] = model_float(m, sc.ypre.t) if isinstance(sc.ypre, SFloat) else None
     inp['tol'] = model_float(m, tol.t) if isinstance(tol, SFloat) else tol
     inp['min_iter'] = model_int(m, min_iter.t) if isinstance(min_iter, SInt) else min_iter
     inp['offset'] = model_int(m, offset.t) if isinstance(offset, SInt) else offset
@@ -487,6 +497,8 @@ def _concrete_script(cfg: dict, inp: dict) -> Script:
     s.kb, s.ka = inp['kb'], inp['ka']
     if inp.get('zpost') is not None:
         s.zpost = np.float64(inp['zpost'])
+    if inp.get('ypre') is not None:
+        s.ypre = np.float64(inp['ypre'])
     return s
 
 
